@@ -93,8 +93,8 @@ func Decode(b Bits) Val {
 	var be uint64
 	var lead uint64
 	if g>>15 != 3 {
-		be = g >> 3   // G0..G13
-		lead = g & 7  // G14..G16 -> 0..7
+		be = g >> 3  // G0..G13
+		lead = g & 7 // G14..G16 -> 0..7
 	} else {
 		be = (g >> 1) & 0x3fff // G2..G15
 		lead = 8 + (g & 1)     // 100 G16
